@@ -1,4 +1,173 @@
-(** Harness glue for C08 (stub: no families yet). *)
-From Coq Require Import List String.
-From KV Require Import Glue.Val.
-Definition c08_run (fam : string) (args : list val) : option string := None.
+(** Harness glue for C08: one line per (iterator type, element kind, slice length, size,
+    front/back history).  The line carries, for every call of the history, what the call
+    returned ([items]), what the opposite call returned on a COPY taken just before
+    ([alt], the original must not notice), and the [as_slice()] / [remainder()] view
+    before the first and after every call ([rem], only for the types that have one).
+
+    args:  <u|z> <len> <size> <history as a word over F,B>
+           u = [u32] elements, z = zero-sized elements (offsets are not observable: [z:len]) *)
+From Coq Require Import List ZArith Bool String Ascii.
+From KV Require Import Base.Prelude Base.Deque Model.SliceIter Glue.Val.
+Import ListNotations.
+Local Open Scope string_scope.
+
+Fixpoint hist_of_chars (cs : list ascii) : option (list end_) :=
+  match cs with
+  | [] => Some []
+  | c :: r =>
+      match hist_of_chars r with
+      | None => None
+      | Some h =>
+          if Ascii.eqb c "F" then Some (Front :: h)
+          else if Ascii.eqb c "B" then Some (Back :: h)
+          else None
+      end
+  end.
+Definition hist_of (v : val) : option (list end_) := hist_of_chars (chars_of_string (as_atom v)).
+
+Definition flip_end (e : end_) : end_ := match e with Front => Back | Back => Front end.
+
+Definition show_v (zst : bool) (v : view) : string :=
+  if (vlen v =? 0)%Z then "e"
+  else if zst then "z:" ++ show_Z (vlen v)
+  else show_view (voff v) (vlen v).
+Definition show_idx (zst : bool) (i : Z) : string := if zst then "u" else show_Z i.
+
+Section Trace.
+  Variables C I : Type.
+  Variable nb bb : C -> step I C.
+  Variable show_item : I -> string.
+  Variable show_rem : iter C -> string.
+
+  Definition show_step (s : step I (iter C)) : option string :=
+    match s with
+    | Panic => None
+    | Stop => Some "N"
+    | Yield x _ => Some ("S(" ++ show_item x ++ ")")
+    end.
+
+  Definition push (a b c : string) (r : option (list string * list string * list string)) :=
+    match r with
+    | None => None
+    | Some (x, y, z) => Some (a :: x, b :: y, c :: z)
+    end.
+
+  Fixpoint trace (h : list end_) (it : iter C) : option (list string * list string * list string) :=
+    match h with
+    | [] => Some ([], [], [])
+    | e :: h' =>
+        match show_step (it_step nb bb (flip_end e) (it_copy it)) with
+        | None => None
+        | Some alt =>
+            match it_step nb bb e (it_copy it) with
+            | Panic => None
+            | Stop => push "N" alt (show_rem it) (trace h' it)
+            | Yield x it' => push ("S(" ++ show_item x ++ ")") alt (show_rem it') (trace h' it')
+            end
+        end
+    end.
+
+  Definition render (with_rem : bool) (h : list end_) (it : option (iter C)) : string :=
+    match it with
+    | None => "PANIC"
+    | Some it =>
+        match trace h it with
+        | None => "PANIC"
+        | Some (items, alts, rems) =>
+            show_fields
+              ([("items", show_list (fun s => s) items); ("alt", show_list (fun s => s) alts)] ++
+               (if with_rem then [("rem", show_list (fun s => s) (show_rem it :: rems))] else []))
+        end
+    end.
+End Trace.
+Arguments render {C I}.
+
+Definition ziota_glue (k : Z) : list Z := map Z.of_nat (seq 0 (Z.to_nat k)).
+
+(** orient: the forward type, or its [.rev()] *)
+Definition orient {C} (rv : bool) (o : option C) : option (iter C) :=
+  match o with
+  | None => None
+  | Some c => Some (if rv then it_rev (fwd c) else fwd c)
+  end.
+
+Definition no_rem {C} (_ : iter C) : string := "".
+
+Definition c08_kind (kind : string) (zst : bool) (len size : Z) (h : list end_) : option string :=
+  let sv := show_v zst in
+  let go_iter rv :=
+    render iter_next iter_next_back (show_idx zst) (fun it => sv (iter_as_slice (core it))) true h
+      (orient rv (Some (iter_new len))) in
+  let go_copied rv :=
+    render copied_next copied_next_back (show_idx zst) (fun it => sv (copied_as_slice (core it))) true h
+      (orient rv (Some (copied_new (ziota_glue len)))) in
+  let go_windows rv :=
+    render windows_next windows_next_back sv no_rem false h (orient rv (windows_new len size)) in
+  let go_chunks rv :=
+    render chunks_next chunks_next_back sv no_rem false h (orient rv (chunks_new len size)) in
+  let go_rchunks rv :=
+    render rchunks_next rchunks_next_back sv no_rem false h (orient rv (rchunks_new len size)) in
+  let go_cexact rv :=
+    render chunks_exact_next chunks_exact_next_back sv (fun it => sv (exact_remainder (core it))) true h
+      (orient rv (chunks_exact_new len size)) in
+  let go_rcexact rv :=
+    render rchunks_exact_next rchunks_exact_next_back sv (fun it => sv (exact_remainder (core it))) true h
+      (orient rv (rchunks_exact_new len size)) in
+  (* ArrayChunksRev has no remainder() *)
+  let go_ac rv :=
+    render array_chunks_next array_chunks_next_back sv (fun it => sv (array_chunks_remainder (core it)))
+      (negb rv) h (orient rv (array_chunks_new len size)) in
+  if String.eqb kind "iter" then Some (go_iter false)
+  else if String.eqb kind "iter_rev" then Some (go_iter true)
+  else if String.eqb kind "iter_copied" then Some (go_copied false)
+  else if String.eqb kind "iter_copied_rev" then Some (go_copied true)
+  else if String.eqb kind "windows" then Some (go_windows false)
+  else if String.eqb kind "windows_rev" then Some (go_windows true)
+  else if String.eqb kind "chunks" then Some (go_chunks false)
+  else if String.eqb kind "chunks_rev" then Some (go_chunks true)
+  else if String.eqb kind "rchunks" then Some (go_rchunks false)
+  else if String.eqb kind "rchunks_rev" then Some (go_rchunks true)
+  else if String.eqb kind "chunks_exact" then Some (go_cexact false)
+  else if String.eqb kind "chunks_exact_rev" then Some (go_cexact true)
+  else if String.eqb kind "rchunks_exact" then Some (go_rcexact false)
+  else if String.eqb kind "rchunks_exact_rev" then Some (go_rcexact true)
+  else if String.eqb kind "array_chunks" then Some (go_ac false)
+  else if String.eqb kind "array_chunks_rev" then Some (go_ac true)
+  else None.
+
+Definition show_arrays (zst : bool) (n : Z) (a : arrays) : string :=
+  show_v zst (mkv (a_off a) (a_cnt a * n)) ++ "*" ++ show_Z (a_cnt a).
+
+Definition c08_as_chunks (zst : bool) (len n : Z) : string :=
+  match as_chunks_m len n with
+  | None => "PANIC"
+  | Some (a, r) => show_fields [("arrs", show_arrays zst n a); ("rem", show_v zst r)]
+  end.
+Definition c08_as_rchunks (zst : bool) (len n : Z) : string :=
+  match as_rchunks_m len n with
+  | None => "PANIC"
+  | Some (r, a) => show_fields [("rem", show_v zst r); ("arrs", show_arrays zst n a)]
+  end.
+
+Definition strip_prefix (p s : string) : option string :=
+  if String.prefix p s then Some (String.substring (String.length p) (String.length s - String.length p) s)
+  else None.
+
+Definition c08_run (fam : string) (args : list val) : option string :=
+  match strip_prefix "c08." fam with
+  | None => None
+  | Some kind =>
+      match args with
+      | [e; len; size; hv] =>
+          match hist_of hv with
+          | None => None
+          | Some h => c08_kind kind (String.eqb (as_atom e) "z") (as_Z len) (as_Z size) h
+          end
+      | [e; len; n] =>
+          let zst := String.eqb (as_atom e) "z" in
+          if String.eqb kind "as_chunks" then Some (c08_as_chunks zst (as_Z len) (as_Z n))
+          else if String.eqb kind "as_rchunks" then Some (c08_as_rchunks zst (as_Z len) (as_Z n))
+          else None
+      | _ => None
+      end
+  end.
